@@ -10,6 +10,7 @@ from typing import (
     ClassVar,
     Dict,
     List,
+    Literal,
     Optional,
     Set,
     Tuple,
@@ -292,6 +293,17 @@ else:
                 f"value does not match any type in Union[{', '.join(type_names)}]",
                 current_path,
                 "union_mismatch",
+            )
+
+        # Literal types: the value must be one of the listed constants
+        if origin is Literal:
+            for allowed in get_args(expected):
+                if type(value) is type(allowed) and value == allowed:
+                    return value
+            raise ValidationError(
+                f"value must be one of {get_args(expected)!r}",
+                current_path,
+                "literal_error",
             )
 
         # Simple type validation
